@@ -304,11 +304,16 @@ def isIdentifier (s : String) : Bool :=
   | [] => false
   | c :: cs => isIdentStart c && cs.all isIdentChar
 
-def FState.lookup (st : FState α) (n : String) : Option (List α) := (st.find? fun p => p.1 == n).map (·.2)
+def FState.lookup : FState α → String → Option (List α)
+  | [], _ => none
+  | (k, v) :: t, n => if k == n then some v else FState.lookup t n
 
-def FState.set (st : FState α) (n : String) (d : List α) : FState α :=
-  if st.any (fun p => p.1 == n) then st.map fun p => if p.1 == n then (n, d) else p
-  else st ++ [(n, d)]
+/-- `setattr(fld, name, data)` + `field_names.append(name)` if the name is new -/
+def FState.set : FState α → String → List α → FState α
+  | [], n, d => [(n, d)]
+  | (k, v) :: t, n, d => if k == n then (n, d) :: t else (k, v) :: FState.set t n d
+
+def FState.has (st : FState α) (n : String) : Bool := (st.lookup n).isSome
 
 /-- `get_store_config(store, default=field)` -/
 def storeConfig (store : Store) (field : String) : String × Bool :=
@@ -343,7 +348,7 @@ def step (cdf ppf : α → α) (c : Cfg α) (reserved : List String) (st : FStat
       | .error e => (st, .error e)
       | .ok out =>
         if save then
-          if !isIdentifier name || (!(st.any fun p => p.1 == name) && reserved.contains name) then
+          if !isIdentifier name || (!st.has name && reserved.contains name) then
             (st, .error "ValueError")
           else (st.set name out, .ok out)
         else (st, .ok out)
